@@ -153,13 +153,30 @@ class KernelShim:
         return self.real(dt_array, lla, velocity_n, mat_nb, theta, dv, offset,
                          with_altitude)
 
+    EXPECTED = ['dt_array', 'lla', 'velocity_n', 'mat_nb', 'theta', 'dv', 'offset',
+                'with_altitude']
+
     def __enter__(self):
-        self.real = _strapdown.integrate
-        _strapdown.integrate = self._shim
+        # The seam is a private function: engage the shim only while it has the signature
+        # the shim understands; after a refactoring of the kernel interface the monitor
+        # steps aside (engaged = False) instead of misreading the arguments.
+        import inspect
+        self.real = getattr(_strapdown, 'integrate', None)
+        self.engaged = False
+        if self.real is not None:
+            try:
+                fn = getattr(self.real, 'py_func', self.real)
+                names = list(inspect.signature(fn).parameters)
+            except (TypeError, ValueError):
+                names = None
+            if names == self.EXPECTED:
+                _strapdown.integrate = self._shim
+                self.engaged = True
         return self
 
     def __exit__(self, *exc):
-        _strapdown.integrate = self.real
+        if self.engaged:
+            _strapdown.integrate = self.real
         return False
 
 
